@@ -1,4 +1,5 @@
 import GraafVerif.Proof.ValueRoundTrip
+import GraafVerif.Proof.VerdictGlue
 /-!
 # Correspondence glue: the value syntax of the line protocol (all 20 checks)
 
@@ -47,5 +48,13 @@ theorem arcs_roundtrip (arcs : List (Nat × Nat)) :
     (parseToks (toToks (ofPairs arcs)) [] []).bind (fun vs => vs.head?.bind (listOf? (pair? nat? nat?)))
       = some arcs :=
   V.arcs_roundtrip arcs
+
+/-- A case is accepted (`OK`) exactly when the oracle on the implementation's output is silent AND
+that output equals the model's; an oracle objection is always `PROPFAIL`; the rest is `MISMATCH`. -/
+theorem verdict_sound (obs mdl : List V) (pf : Option String) (nt : Bool) (tags : List String) :
+    ((Driver.classify obs mdl pf nt tags).status = "OK" ↔ pf = none ∧ (obs == mdl) = true) ∧
+    ((Driver.classify obs mdl pf nt tags).status = "PROPFAIL" ↔ pf.isSome = true) ∧
+    ((Driver.classify obs mdl pf nt tags).status = "MISMATCH" ↔ pf = none ∧ (obs == mdl) = false) :=
+  ⟨Driver.classify_ok_iff .., Driver.classify_propfail_iff .., Driver.classify_mismatch_iff ..⟩
 
 end GraafVerif.Glue
